@@ -25,6 +25,13 @@ def run(rep, tier, seed, rng):
         apps = [{"name": "app%02d" % a, "sources": ["a%02d_%d.c" % (a, j) for j in range(1 + (a * 5) % 17)],
                  "selects": ["lib%d" % ((a + j) % 6) for j in range(a % 4)]} for a in range(na)]
         cases.append((directed.base(mods, apps, builders=[{"name": "b%d" % i, "env": {"X": "x%d" % i}} for i in range(nb)]), {}))
+    # several files exported by several global build deps (the order-only section of every LINK statement), and
+    # the directed corpus (one shape per former defect)
+    gmods = [{"name": "g%d" % k, "is_global_build_dep": True, "build": {"cmd": ["gen%d > ${out}" % k], "out": ["g%d_a.h" % k, "g%d_b.h" % k]}} for k in range(4)]
+    cases.append((directed.base(gmods + [{"name": "lib", "sources": ["lib.c"]}],
+                                [{"name": "app1", "sources": ["main.c"], "depends": ["g0", "g1", "g2", "g3", "lib"]},
+                                 {"name": "app2", "sources": ["main.c"], "depends": ["g3", "g2", "g1", "g0", "lib"]}]), {}))
+    cases += [(f, {k: v for k, v in c.items() if k != "local"}) for f, c in directed.cases_portable()]        # (the scratch directory differs between launches)
     nproj = len(cases)
     base = e2e.run_batch(laze, driver, cases)
     jobs = [(i, t, k) for i in range(nproj) for t in threads for k in range(launches if t == threads[-1] else 1)]
@@ -43,9 +50,26 @@ def run(rep, tier, seed, rng):
             rep.violation("repeated launch (RAYON_NUM_THREADS=%d, launch %d) differs from the first run: %s" %
                           (t, k, "exit status" if b["impl_raw"]["rc"] != r["rc"] else "ninja file" if b["impl_raw"]["ninja"] != r["ninja"] else "info-export"),
                           dict(files=cases[i][0], cli=cases[i][1], threads=t, launch=k, argv=r["argv"]), found_input=True)
+    # --- the file for a command line does not depend on what was generated in the build directory before:
+    # a wider run first, then the narrower one, against the narrower one in a fresh directory
+    seqs = []
+    for i, b in enumerate(base):
+        bs = sorted({x["builder"] for x in (b["impl"].get("builds") or [])}) if b["impl"]["rc"] == 0 else []
+        if len(bs) >= 1 and len(b["impl"]["builds"]) >= 2 and len(seqs) < (24 if tier == "quick" else 200):
+            seqs.append((i, dict(cases[i][1], builders=bs[:1], define=(cases[i][1].get("define") or []) + ["CFLAGS+=-Dnarrow"])))
+    def seq_one(item):
+        i, narrow = item
+        got = e2e.run_sequence(laze, cases[i][0], [dict(cli=cases[i][1]), dict(cli=narrow)])
+        fresh = e2e.run_laze(laze, cases[i][0], narrow, info=False)
+        return i, narrow, got, fresh
+    with ThreadPoolExecutor(core.NCPU) as ex:
+        for i, narrow, got, fresh in ex.map(seq_one, seqs):
+            nruns += 3
+            if got[1]["rc"] == 0 and fresh["rc"] == 0 and got[1]["ninja"] != fresh["ninja"]:
+                rep.violation("the ninja file written for a command line depends on what was generated in the build directory before (a wider run first): %d bytes after the wider run, %d in a fresh directory"
+                              % (len(got[1]["ninja"] or b""), len(fresh["ninja"] or b"")),
+                              dict(files=cases[i][0], first=cases[i][1], second=narrow), found_input=True)
     for c, b in zip(cases, base):
-        if '"maps"' or True:
-            pass
         txt = json.dumps(c[0])
         if b["model"]["kind"] == "ok" and b["model"]["builds"] and (txt.count('": ["') > 3):
             distinct.add(json.dumps(c, sort_keys=True))
@@ -58,7 +82,7 @@ def run(rep, tier, seed, rng):
                       % (len(new), len(gone)), dict(new=new[:20], gone=gone[:20], inventory="corpus/unordered_inventory.json"), found_input=False)
     rep.cov.update(evaluations=nproj + nruns, distinct_nontrivial=len(distinct),
                    rule="random projects (1/2 from the maps-focused generator: multi-key if-then maps, multi-key optional-source maps, multi-key export maps, several -D; "
-                        "1/2 build-focused: modules using several build-dep modules), each launched with RAYON_NUM_THREADS in %s and %d extra launches at 16 threads (fresh process, fresh hash seeds); ninja file, "
+                        "1/2 build-focused: modules using several build-dep modules), wide projects, several global build deps, the directed corpus; each launched with RAYON_NUM_THREADS in %s and %d extra launches at 16 threads (fresh process, fresh hash seeds); ninja file, "
                         "info-export and exit status compared byte-for-byte with the first launch and the ninja file with the model; non-trivial = project with multi-key maps and >=1 configured build"
                         % (threads, launches - 1),
                    samples=[dict(cli=cases[0][1], threads=threads)], launches=nruns, inventory_lines=len(now), inventory_new=len(new), inventory_gone=len(gone),
